@@ -83,4 +83,5 @@ pub mod grad;
 pub mod interval;
 pub mod total;
 pub mod view;
+pub mod ctxax;
 pub mod registry;
